@@ -4,7 +4,7 @@ open Common
 let key (m : Move.rmove) =
   let t = int_of_n m.Move.mT in
   if t >= 5 then enc_move m else Printf.sprintf "%s:%s:%d:0" (string_of_z m.Move.mX) (string_of_z m.Move.mY) t
-let run _args =
+let run (_args : string list) =
   run_cases (fun fs ->
     let p = parse_pos (L.hd fs) in
     let all = GameOver.all_moves p in
